@@ -386,8 +386,8 @@ func walkFacts(p *pkgInfo) *WalkFacts {
 // ---- assignments inside a function: which fields of recv are assigned ---------------------
 
 type AssignFacts struct {
-	Assigned   []string          `json:"assigned"`    // recv.F = …  (top-level selector under the receiver)
-	Literal    map[string]string `json:"literal"`     // fields of the first composite literal of type lit (value source text)
+	Assigned   []string          `json:"assigned"` // recv.F = …  (top-level selector under the receiver)
+	Literal    map[string]string `json:"literal"`  // fields of the first composite literal of type lit (value source text)
 	LiteralTyp string            `json:"literal_type"`
 	Calls      []string          `json:"calls"` // method calls on the receiver
 }
@@ -652,6 +652,43 @@ func selectorUses(p *pkgInfo, recvType string, fields []string) map[string][]str
 	return res
 }
 
+// selectorUseCounts: like selectorUses, with the number of mentions per function
+// (field -> function -> count), so that a table obligation can pin down how often a function that is
+// only partly a primitive (Parser.next: the stop-word test) touches the buffer fields.
+func selectorUseCounts(p *pkgInfo, recvType string, fields []string) map[string]map[string]int {
+	want := map[string]bool{}
+	for _, f := range fields {
+		want[f] = true
+	}
+	out := map[string]map[string]int{}
+	for _, f := range p.files {
+		for _, d := range f.Decls {
+			fd, ok := d.(*ast.FuncDecl)
+			if !ok || fd.Body == nil || fd.Recv == nil || len(fd.Recv.List) == 0 || len(fd.Recv.List[0].Names) == 0 {
+				continue
+			}
+			if strings.TrimPrefix(src(fd.Recv.List[0].Type), "*") != recvType {
+				continue
+			}
+			rv := fd.Recv.List[0].Names[0].Name
+			ast.Inspect(fd.Body, func(n ast.Node) bool {
+				se, ok := n.(*ast.SelectorExpr)
+				if !ok {
+					return true
+				}
+				if id, ok := se.X.(*ast.Ident); ok && id.Name == rv && want[se.Sel.Name] {
+					if out[se.Sel.Name] == nil {
+						out[se.Sel.Name] = map[string]int{}
+					}
+					out[se.Sel.Name][fd.Name.Name]++
+				}
+				return true
+			})
+		}
+	}
+	return out
+}
+
 func funcSrc(p *pkgInfo, recv, name string) string {
 	fd := p.funcDecl(recv, name)
 	if fd == nil {
@@ -672,16 +709,17 @@ func main() {
 
 	facts := map[string]any{}
 	facts["syntax"] = map[string]any{
-		"structs":        syn.structs(),
-		"interfaces":     syn.interfaces(),
-		"methods":        syn.methods(),
-		"walk":           walkFacts(syn),
-		"parser_reset":   assignFacts(syn.funcDecl("Parser", "reset"), "Parser"),
-		"printer_reset":  assignFacts(syn.funcDecl("Printer", "reset"), "Printer"),
-		"type_switches":  typeSwitches(syn),
-		"tokens":         constFacts(syn, "tokens.go"),
-		"byte_access":    selectorUses(syn, "Parser", []string{"bs", "bsp", "src", "readBuf", "readErr", "readEOF", "litBs", "offs"}),
-		"token_string":   funcSrc(syn, "token", "String"),
+		"structs":            syn.structs(),
+		"interfaces":         syn.interfaces(),
+		"methods":            syn.methods(),
+		"walk":               walkFacts(syn),
+		"parser_reset":       assignFacts(syn.funcDecl("Parser", "reset"), "Parser"),
+		"printer_reset":      assignFacts(syn.funcDecl("Printer", "reset"), "Printer"),
+		"type_switches":      typeSwitches(syn),
+		"tokens":             constFacts(syn, "tokens.go"),
+		"byte_access":        selectorUses(syn, "Parser", []string{"bs", "bsp", "src", "readBuf", "readErr", "readEOF", "litBs", "offs"}),
+		"byte_access_counts": selectorUseCounts(syn, "Parser", []string{"bs", "bsp"}),
+		"token_string":       funcSrc(syn, "token", "String"),
 	}
 	facts["typedjson"] = map[string]any{
 		"type_switches": typeSwitches(tj),
@@ -701,7 +739,7 @@ func main() {
 	for _, f := range extraFacts {
 		f(repo, facts)
 	}
-	addC15Facts(facts, syn, tj) // extract/c15.go: add-only keys for C15
+	addC15Facts(facts, syn, tj)        // extract/c15.go: add-only keys for C15
 	facts["posend"] = posEndFacts(syn) // C09 (posend.go)
 	facts["problems"] = problems
 	enc := json.NewEncoder(os.Stdout)
